@@ -95,3 +95,281 @@ Proof.
     + destruct (Z.leb_spec P 8); [|lia]. apply bytes_back. assumption.
     + destruct (Z.leb_spec P 8); [lia|]. apply le16_back with (m := n); [unfold n; lia | assumption].
 Qed.
+
+(* ---------- marker segments ---------- *)
+Lemma read_marker_ok : forall m rest, 1 <= m <= 254 ->
+  read_marker (255 :: m :: rest) = Ok (65280 + m, rest).
+Proof.
+  intros m rest Hm. unfold read_marker. change (255 =? 255) with true. cbn [negb skip_ff].
+  destruct (Z.eqb_spec m 255); [lia|]. cbn [obind fst snd].
+  destruct (Z.eqb_spec m 0); [lia|]. reflexivity.
+Qed.
+
+Lemma read_segment_ok : forall data rest, zlen data + 2 < 65536 ->
+  read_segment (be16 (wrapU 16 (zlen data + 2)) ++ data ++ rest) = Ok (data, rest).
+Proof.
+  intros data rest H. unfold zlen in *.
+  rewrite wrapU_small by (change (2 ^ 16) with 65536; lia).
+  unfold be16. cbn [app read_segment].
+  destruct (be16_val (Z.of_nat (length data) + 2) ltac:(lia)) as (_ & E & _). rewrite E.
+  destruct (Z.ltb_spec (Z.of_nat (length data) + 2) 2); [lia|].
+  replace (Z.to_nat (Z.of_nat (length data) + 2 - 2)) with (length data) by lia.
+  destruct (Nat.ltb_spec (length (data ++ rest)) (length data)) as [Hlt|_].
+  - rewrite app_length in Hlt. lia.
+  - rewrite firstn_len_app, skipn_len_app. reflexivity.
+Qed.
+
+(* one iteration of the marker loop of lossless.Decode on a segment with a length field *)
+Lemma ll_loop_step : forall f m data rest st, 1 <= m <= 254 -> zlen data + 2 < 65536 ->
+  ll_loop (S f) (255 :: m :: be16 (wrapU 16 (zlen data + 2)) ++ data ++ rest) st =
+  let mk := 65280 + m in
+  if mk =? M_SOF3 then obind (ll_parse_sof3 data st) (fun st' => ll_loop f rest st')
+  else if mk =? M_DHT then obind (ll_parse_dht (length data) data st) (fun st' => ll_loop f rest st')
+  else if mk =? M_SOS then obind (ll_parse_sos data st) (fun st' => ll_decode_scan st' rest)
+  else if mk =? M_EOI then Err
+  else if has_length mk then ll_loop f rest st
+  else ll_loop f (be16 (wrapU 16 (zlen data + 2)) ++ data ++ rest) st.
+Proof.
+  intros f m data rest st Hm Hl. cbn [ll_loop]. rewrite read_marker_ok by assumption.
+  cbn [obind fst snd]. cbv zeta. rewrite read_segment_ok by assumption. cbn [obind fst snd].
+  reflexivity.
+Qed.
+
+Lemma sv1_loop_step : forall f m data rest st, 1 <= m <= 254 -> zlen data + 2 < 65536 ->
+  sv1_loop (S f) (255 :: m :: be16 (wrapU 16 (zlen data + 2)) ++ data ++ rest) st =
+  let mk := 65280 + m in
+  if mk =? M_SOF3 then obind (sv1_parse_sof3 data st) (fun st' => sv1_loop f rest st')
+  else if mk =? M_DHT then obind (sv1_parse_dht (length data) data st) (fun st' => sv1_loop f rest st')
+  else if mk =? M_SOS then obind (sv1_parse_sos data st) (fun st' => sv1_decode_scan st' rest)
+  else if mk =? M_EOI then Ok (sv1_pixels st (sv1_zero_rows st))
+  else if has_length mk then sv1_loop f rest st
+  else sv1_loop f (be16 (wrapU 16 (zlen data + 2)) ++ data ++ rest) st.
+Proof.
+  intros f m data rest st Hm Hl. cbn [sv1_loop]. rewrite read_marker_ok by assumption.
+  cbn [obind fst snd]. cbv zeta. rewrite read_segment_ok by assumption. cbn [obind fst snd].
+  reflexivity.
+Qed.
+
+Lemma segment_shape : forall marker data rest,
+  segment marker data ++ rest =
+  byte_of (Z.shiftr marker 8) :: byte_of marker :: be16 (wrapU 16 (zlen data + 2)) ++ data ++ rest.
+Proof. intros. unfold segment. unfold be16 at 1. cbn [app]. rewrite <- !app_assoc. reflexivity. Qed.
+
+(* ---------- scan extraction ---------- *)
+Lemma ll_extract_stuff : forall bs tail, bytes_ok bs ->
+  ll_extract_scan (stuff bs ++ 255 :: 217 :: tail) = stuff bs.
+Proof.
+  induction bs as [|b bs IH]; intros tail Hb.
+  - reflexivity.
+  - inversion Hb; subst. unfold stuff in *. cbn [flat_map]. unfold write_byte at 1 3.
+    destruct (Z.eqb_spec b 255) as [E|E].
+    + subst. cbn [app ll_extract_scan]. change (255 =? 255) with true. cbv iota.
+      change (0 =? 0) with true. cbv iota. rewrite IH by assumption. reflexivity.
+    + cbn [app ll_extract_scan]. destruct (Z.eqb_spec b 255); [contradiction|].
+      rewrite IH by assumption. reflexivity.
+Qed.
+Lemma sv1_extract_stuff : forall bs tail, bytes_ok bs ->
+  sv1_extract_scan (stuff bs ++ 255 :: 217 :: tail) = stuff bs.
+Proof.
+  induction bs as [|b bs IH]; intros tail Hb.
+  - reflexivity.
+  - inversion Hb; subst. unfold stuff in *. cbn [flat_map]. unfold write_byte at 1 3.
+    destruct (Z.eqb_spec b 255) as [E|E].
+    + subst. cbn [app sv1_extract_scan]. change (255 =? 255) with true. cbv iota.
+      change (0 =? 0) with true. cbv iota. rewrite IH by assumption. reflexivity.
+    + cbn [app sv1_extract_scan]. destruct (Z.eqb_spec b 255); [contradiction|].
+      rewrite IH by assumption. reflexivity.
+Qed.
+
+(* ---------- header parsing of what the encoder writes ---------- *)
+Lemma znth6 : forall (a0 a1 a2 a3 a4 a5 : Z) l d,
+  znth (a0 :: a1 :: a2 :: a3 :: a4 :: a5 :: l) 0 d = a0 /\
+  znth (a0 :: a1 :: a2 :: a3 :: a4 :: a5 :: l) 1 d = a1 /\
+  znth (a0 :: a1 :: a2 :: a3 :: a4 :: a5 :: l) 2 d = a2 /\
+  znth (a0 :: a1 :: a2 :: a3 :: a4 :: a5 :: l) 3 d = a3 /\
+  znth (a0 :: a1 :: a2 :: a3 :: a4 :: a5 :: l) 4 d = a4 /\
+  znth (a0 :: a1 :: a2 :: a3 :: a4 :: a5 :: l) 5 d = a5.
+Proof. intros. repeat split; reflexivity. Qed.
+
+Lemma parse_sof3_ok : forall w h comps P st,
+  1 <= w <= 65535 -> 1 <= h <= 65535 -> comps = 1 \/ comps = 3 -> 2 <= P <= 16 ->
+  ll_parse_sof3 (sof3_data w h comps P) st =
+  Ok (mkD w h comps P (d_pred st) (d_tabs st) (d_sels st)).
+Proof.
+  intros w h comps P st Hw Hh Hc HP. unfold sof3_data. set (tl := flat_map _ _). cbn [app].
+  unfold ll_parse_sof3.
+  destruct (znth6 (byte_of P) (byte_of (Z.shiftr h 8)) (byte_of h) (byte_of (Z.shiftr w 8))
+                  (byte_of w) (byte_of comps) tl 0) as (E0 & E1 & E2 & E3 & E4 & E5).
+  rewrite E0, E1, E2, E3, E4, E5.
+  destruct (Z.ltb_spec (zlen (byte_of P :: byte_of (Z.shiftr h 8) :: byte_of h ::
+             byte_of (Z.shiftr w 8) :: byte_of w :: byte_of comps :: tl)) 6) as [Hl|_].
+  { unfold zlen in Hl. cbn [length] in Hl. lia. }
+  rewrite (byte_of_small P) by lia. rewrite (byte_of_small comps) by lia.
+  destruct (be16_val h ltac:(lia)) as (Eh & _ & _). destruct (be16_val w ltac:(lia)) as (Ew & _ & _).
+  rewrite Eh, Ew.
+  destruct (Z.ltb_spec P 2); [lia|]. destruct (Z.ltb_spec 16 P); [lia|]. cbn [orb].
+  destruct (Z.leb_spec w 0); [lia|]. destruct (Z.leb_spec h 0); [lia|]. cbn [orb].
+  destruct Hc; subst comps; reflexivity.
+Qed.
+
+Lemma map_byte_of_id : forall l, Forall (fun b => 0 <= b < 256) l -> map byte_of l = l.
+Proof.
+  induction l; intros F; [reflexivity|]. inversion F; subst. cbn [map].
+  rewrite byte_of_small, IHl by assumption. reflexivity.
+Qed.
+
+Lemma dht_data_ok : forall bits vals, table_facts bits vals -> dht_data 0 bits vals = 0 :: bits ++ vals.
+Proof.
+  intros bits vals F. destruct F as [Fl Fb Fs Fv Fn Ff]. unfold dht_data, copy_pad. cbn [app].
+  change (byte_of 0) with 0. rewrite map_byte_of_id by assumption.
+  rewrite Fs. unfold zlen. rewrite Nat2Z.id, firstn_all, Nat.sub_diag. cbn [repeat].
+  rewrite app_nil_r. reflexivity.
+Qed.
+
+Lemma parse_dht_ok : forall bits vals t st, table_facts bits vals -> build_table bits vals = Ok t ->
+  ll_parse_dht (length (0 :: bits ++ vals)) (0 :: bits ++ vals) st =
+  Ok (mkD (d_w st) (d_h st) (d_comps st) (d_P st) (d_pred st) (zupd (d_tabs st) 0 (Some t)) (d_sels st)).
+Proof.
+  intros bits vals t st F Ht. pose proof F as F0. destruct F as [Fl Fb Fs Fv Fn Ff]. cbn [length ll_parse_dht].
+  change (Z.land (Z.shiftr 0 4) 15) with 0. change (Z.land 0 15) with 0.
+  change (4 <=? 0) with false. cbv iota.
+  destruct (Nat.ltb_spec (length (bits ++ vals)) 16) as [Hlt|_]; [rewrite app_length in Hlt; lia|].
+  rewrite <- Fl. rewrite firstn_len_app, skipn_len_app.
+  rewrite Fs. destruct (Z.ltb_spec (zlen vals) (zlen vals)); [lia|].
+  unfold zlen. rewrite Nat2Z.id, firstn_all, skipn_all.
+  rewrite Ht. cbn [obind]. change (0 =? 0) with true. cbv iota.
+  destruct (length (bits ++ vals)); reflexivity.
+Qed.
+
+Lemma parse_sos_ok : forall w h comps P p0 tabs pred,
+  comps = 1 \/ comps = 3 -> 1 <= pred <= 7 ->
+  ll_parse_sos (sos_data comps pred) (mkD w h comps P p0 tabs [0; 0; 0]) =
+  Ok (mkD w h comps P pred tabs [0; 0; 0]).
+Proof.
+  intros w h comps P p0 tabs pred Hc Hp.
+  destruct Hc; subst comps; unfold sos_data, ll_parse_sos; cbn [d_comps d_w d_h d_P d_tabs d_sels];
+    [change (Z.to_nat 1) with 1%nat | change (Z.to_nat 3) with 3%nat];
+    cbn [seqZ flat_map app]; rewrite (byte_of_small pred) by lia;
+    unfold zlen; cbn [length];
+    vm_compute (Z.of_nat _ <? _); cbv iota.
+  - vm_compute (znth _ 0 0 =? 1). cbv iota. cbn [negb].
+    change (znth _ (1 + 1 * 2) 0) with pred.
+    destruct (Z.ltb_spec pred 1); [lia|]. destruct (Z.ltb_spec 7 pred); [lia|]. cbn [orb].
+    reflexivity.
+  - vm_compute (znth _ 0 0 =? 3). cbv iota. cbn [negb].
+    change (znth _ (1 + 3 * 2) 0) with pred.
+    destruct (Z.ltb_spec pred 1); [lia|]. destruct (Z.ltb_spec 7 pred); [lia|]. cbn [orb].
+    reflexivity.
+Qed.
+
+Lemma ll_step_app0 : forall f data rest st, zlen data + 2 < 65536 ->
+  ll_loop (S f) (segment M_APP0 data ++ rest) st = ll_loop f rest st.
+Proof.
+  intros. rewrite segment_shape. change (byte_of (Z.shiftr M_APP0 8)) with 255.
+  change (byte_of M_APP0) with 224. rewrite ll_loop_step by lia. reflexivity.
+Qed.
+Lemma ll_step_sof3 : forall f data rest st, zlen data + 2 < 65536 ->
+  ll_loop (S f) (segment M_SOF3 data ++ rest) st =
+  obind (ll_parse_sof3 data st) (fun st' => ll_loop f rest st').
+Proof.
+  intros. rewrite segment_shape. change (byte_of (Z.shiftr M_SOF3 8)) with 255.
+  change (byte_of M_SOF3) with 195. rewrite ll_loop_step by lia. reflexivity.
+Qed.
+Lemma ll_step_dht : forall f data rest st, zlen data + 2 < 65536 ->
+  ll_loop (S f) (segment M_DHT data ++ rest) st =
+  obind (ll_parse_dht (length data) data st) (fun st' => ll_loop f rest st').
+Proof.
+  intros. rewrite segment_shape. change (byte_of (Z.shiftr M_DHT 8)) with 255.
+  change (byte_of M_DHT) with 196. rewrite ll_loop_step by lia. reflexivity.
+Qed.
+Lemma ll_step_sos : forall f data rest st, zlen data + 2 < 65536 ->
+  ll_loop (S f) (segment M_SOS data ++ rest) st =
+  obind (ll_parse_sos data st) (fun st' => ll_decode_scan st' rest).
+Proof.
+  intros. rewrite segment_shape. change (byte_of (Z.shiftr M_SOS 8)) with 255.
+  change (byte_of M_SOS) with 218. rewrite ll_loop_step by lia. reflexivity.
+Qed.
+
+Lemma segment_length : forall m data, (4 <= length (segment m data))%nat.
+Proof. intros. unfold segment, be16. cbn [app length]. lia. Qed.
+
+(* ---------- every element produced by the traversal ---------- *)
+Lemma scan_map_Forall : forall {B} (f : bool -> bool -> Z -> Z -> Z -> Z -> B) (Q : B -> Prop),
+  (forall r c l a al x, Q (f r c l a al x)) ->
+  forall comps w rows, Forall Q (scan_map f comps w rows).
+Proof.
+  intros B f Q HQ comps w rows. unfold scan_map.
+  assert (H4 : forall r c l a al x, Forall Q (map4 f r c l a al x)).
+  { intros r c l. induction l as [|l0 l IH]; intros a al x; destruct a, al, x; cbn [map4]; try constructor.
+    - apply HQ.
+    - apply IH. }
+  assert (Hr : forall r c left aleft prev cur, Forall Q (row_map f r c left aleft prev cur)).
+  { intros r c left aleft prev cur. revert c left aleft prev.
+    induction cur as [|px cur IH]; intros c left aleft prev; destruct prev; cbn [row_map]; try constructor.
+    apply Forall_app. split; [apply H4 | apply IH]. }
+  generalize (repeat (repeat 0 comps) w) as prev. generalize true as r0.
+  induction rows as [|r rows IH]; intros r0 prev; cbn [rows_map]; [constructor|].
+  apply Forall_app. split; [apply Hr | apply IH].
+Qed.
+
+Lemma repeat_goodpx : forall P n, 2 <= P -> goodpx P n (repeat 0 n).
+Proof.
+  intros P n HP. split; [apply repeat_length|]. apply Forall_forall. intros x Hx.
+  apply repeat_spec in Hx. subst. unfold good. split; [lia | apply Z.pow_pos_nonneg; lia].
+Qed.
+
+Lemma Ok_inj : forall {A} (a b : A), Ok a = Ok b -> a = b.
+Proof. intros A a b H. injection H as H. exact H. Qed.
+
+Lemma sof3_len : forall w h comps P, comps = 1 \/ comps = 3 -> zlen (sof3_data w h comps P) = 6 + 3 * comps.
+Proof. intros w h comps P [H|H]; subst comps; reflexivity. Qed.
+Lemma sos_len : forall comps pred, comps = 1 \/ comps = 3 -> zlen (sos_data comps pred) = 4 + 2 * comps.
+Proof. intros comps pred [H|H]; subst comps; reflexivity. Qed.
+
+Lemma jll_decode_soi : forall rest,
+  jll_decode (be16 M_SOI ++ rest) = ll_loop (S (S (length rest))) rest d_init.
+Proof.
+  intros. unfold jll_decode. change (be16 M_SOI ++ rest) with (255 :: 216 :: rest).
+  rewrite read_marker_ok by lia. reflexivity.
+Qed.
+
+(* ---------- decoding what encode_stream wrote ---------- *)
+Definition covers (vals diffs : list Z) : Prop := Forall (fun d => In (diff_category d) vals) diffs.
+
+Lemma ll_decode_stream : forall w h comps P pred rows bits vals s,
+  1 <= w <= 65535 -> 1 <= h <= 65535 -> comps = 1 \/ comps = 3 -> 2 <= P <= 16 -> 1 <= pred <= 7 ->
+  length rows = Z.to_nat h ->
+  Forall (fun r => length r = Z.to_nat w /\ Forall (goodpx P (Z.to_nat comps)) r) rows ->
+  let diffs := ll_diffs w comps P pred rows in
+  build_optimal (count_freqs diffs) = Ok (bits, vals) ->
+  t81_table_ok bits vals = true -> covers vals diffs ->
+  encode_stream w h comps P pred diffs = Ok s ->
+  jll_decode s = Ok (rows_to_pixels P rows, w, h, comps, P).
+Proof.
+  intros w h comps P pred rows bits vals s Hw Hh Hc HP Hpred Hlen Hrows diffs Hopt Hok Hcov Henc.
+  pose proof (table_ok_facts _ _ Hok) as F.
+  unfold encode_stream, build_optimal_table in Henc. rewrite Hopt in Henc. cbn [obind fst snd] in Henc.
+  unfold build_table in Henc. destruct (lookup_ok bits 0 0 (zlen vals)) eqn:Elk; [|discriminate].
+  cbn [obind ht_bits ht_vals] in Henc. apply Ok_inj in Henc. subst s.
+  fold (ht_of bits vals).
+  assert (Hbt : build_table bits vals = Ok (ht_of bits vals)) by (unfold build_table; rewrite Elk; reflexivity).
+  (* the scan bytes *)
+  assert (Hdok : diffs_ok vals diffs).
+  { unfold diffs_ok. apply Forall_forall. intros d Hd. split.
+    - revert d Hd. apply Forall_forall. unfold diffs, ll_diffs. apply scan_map_Forall.
+      intros. apply narrow16_range.
+    - apply (proj1 (Forall_forall _ _) Hcov). assumption. }
+  rewrite (enc_syms_emit bits vals diffs w_init [] F Hdok winv_init).
+  destruct (emit_stuff (map (word bits vals) diffs) []) as (bs & pad & E1 & E2 & E3); [simpl; lia|].
+  rewrite E1. cbn [app] in E3.
+  (* marker loop *)
+  rewrite jll_decode_soi.
+  match goal with |- context [ll_loop _ ?r d_init] => set (rest := r) end.
+  assert (Hfuel : exists f, length rest = S (S f)).
+  { unfold rest. rewrite app_length. pose proof (segment_length M_APP0 jfif_payload).
+    destruct (length (segment M_APP0 jfif_payload)) as [|[|n]]; try lia. eexists. reflexivity. }
+  destruct Hfuel as [f Hf]. rewrite Hf. unfold rest.
+  rewrite ll_step_app0 by (vm_compute; reflexivity).
+  rewrite ll_step_sof3 by (rewrite sof3_len by assumption; lia).
+  rewrite parse_sof3_ok by assumption. cbn [obind d_init d_pred d_tabs d_sels]. Show.
+Abort.
